@@ -22,6 +22,8 @@ type GoodB struct {
 	ch   chan *stored
 }
 
+func NewGoodB() *GoodB { return &GoodB{ch: make(chan *stored, 4)} }
+
 func (g *GoodB) BindLocalStream(_ *interceptor.StreamInfo, w interceptor.RTPWriter) interceptor.RTPWriter {
 	return interceptor.RTPWriterFunc(func(h *rtp.Header, p []byte, a interceptor.Attributes) (int, error) {
 		cp := make([]byte, len(p))
@@ -29,6 +31,9 @@ func (g *GoodB) BindLocalStream(_ *interceptor.StreamInfo, w interceptor.RTPWrit
 		s := stored{hdr: h.Clone(), pay: cp}
 		g.mu.Lock()
 		g.keep = append(g.keep, s)
+		if len(g.keep) > 8 {
+			g.keep = g.keep[1:]
+		}
 		g.mu.Unlock()
 		s2 := &stored{hdr: h.Clone(), pay: append([]byte(nil), p...)}
 		select {
